@@ -92,8 +92,29 @@ class Run:
             k = len(self.iters)
             self.iters[k] = [list(args[0][1]), 0]
             return ("iter", k)
-        if last in ("into_iter", "cloned", "copied", "by_ref") and len(args) == 1 and isinstance(args[0], tuple) and args[0][:1] in ITER:
+        if last in ("into_iter", "cloned", "copied", "by_ref", "peekable", "fuse") and len(args) == 1 and isinstance(args[0], tuple) and args[0][:1] in ITER:
             return args[0]
+        # an ordered map with concrete entries: iteration is in key order, i.e. the order the scenario lists them in
+        if args and isinstance(args[0], tuple) and args[0][:1] == ("map",) and len(args) == 1 and "btree" in sp:
+            ents = args[0][1]
+            if last in ("into_iter", "iter", "iter_mut"):
+                return self.handler("core::iter::traits::collect::IntoIterator::into_iter", [("vec", tuple(("tuple", [k_, v_]) for k_, v_ in ents))], t)
+            if last in ("values", "into_values", "values_mut"):
+                return self.handler("core::iter::traits::collect::IntoIterator::into_iter", [("vec", tuple(v_ for _, v_ in ents))], t)
+            if last in ("keys", "into_keys"):
+                return self.handler("core::iter::traits::collect::IntoIterator::into_iter", [("vec", tuple(k_ for k_, _ in ents))], t)
+            if last == "len":
+                return len(ents)
+            if last == "is_empty":
+                return len(ents) == 0
+        if last in ("size_hint", "len") and len(args) == 1 and isinstance(args[0], tuple) and args[0][:1] in ITER:
+            it_ = args[0]
+            while it_[0] in ("miter", "eiter"):
+                it_ = it_[1]
+            if it_[0] == "iter":
+                st_ = self.iters[it_[1]]
+                n_ = len(st_[0]) - st_[1]
+                return n_ if last == "len" else ("tuple", [n_, some(n_)])
         if last == "enumerate" and len(args) == 1 and isinstance(args[0], tuple) and args[0][:1] in ITER:
             k = len(self.iters)
             self.iters[k] = [None, 0]
@@ -127,6 +148,35 @@ class Run:
                 if keep is False or keep == 0:
                     return self.handler(name, args, t)
                 raise Unrecognised("filter predicate with an undecided verdict %r" % (keep,))
+        if last in ("find", "find_map", "position", "any", "all") and len(args) == 2 and isinstance(args[0], tuple) and args[0][:1] == ("vec",) and "iter" in sp.lower():
+            args = [self.handler("core::iter::traits::collect::IntoIterator::into_iter", [args[0]], t), args[1]]
+        if last in ("find", "find_map", "position", "any", "all") and len(args) == 2 and isinstance(args[0], tuple) and args[0][:1] in ITER and "iter" in sp.lower():
+            k_ = 0
+            while k_ < 64:
+                nx = self.handler("core::iter::traits::iterator::Iterator::next", [args[0]], t)
+                ov = absint.opt_view(nx)
+                if not ov or ov[0] != "Some":
+                    break
+                r_ = absint.call_closure(prog, args[1], [ov[1]], self.handler, 1, True)
+                if last == "find_map":
+                    rv_ = absint.opt_view(r_)
+                    if rv_ is None:
+                        raise Unrecognised("find_map closure with an undecided result %r" % (r_,))
+                    if rv_[0] == "Some":
+                        return r_
+                else:
+                    if not (isinstance(r_, (bool, int)) and r_ in (True, False, 0, 1)):
+                        raise Unrecognised("%s predicate with an undecided verdict %r" % (last, r_))
+                    if last == "find" and r_:
+                        return some(ov[1])
+                    if last == "position" and r_:
+                        return some(k_)
+                    if last == "any" and r_:
+                        return True
+                    if last == "all" and not r_:
+                        return False
+                k_ += 1
+            return {"find": NONE, "find_map": NONE, "position": NONE, "any": False, "all": True}[last]
         if (last in ("collect", "from_iter") or name == "__materialize__") and len(args) == 1 and isinstance(args[0], tuple) and args[0][:1] in ITER:
             out = []
             while len(out) < 64:
@@ -139,6 +189,9 @@ class Run:
         if name == "__materialize__":
             return None
         if last == "extend" and len(args) == 2 and "Extend" in sp:
+            ov_ = absint.opt_view(args[1])
+            if ov_ is not None and ov_[0] == "Some":
+                self.log.append(("push", args[0], ov_[1]))       # extending by an Option appends its payload, if any
             return ("tuple", [])
         if last == "to_vec" and len(args) == 1 and isinstance(args[0], tuple) and args[0][:1] == ("vec",):
             return args[0]
